@@ -1500,6 +1500,27 @@ def external(I, dotted):
                 raise AnalysisError("namedtuple with symbolic field names")
             return NTupleClass(name, fields, tuple(iterate(I, defaults)) if defaults is not None else ())
         return Builtin(dotted, namedtuple)
+    if mod == "bisect" and name in ("insort", "insort_right", "insort_left", "bisect", "bisect_right", "bisect_left"):
+        left = name.endswith("left")
+
+        def pos(a, x):
+            if not isinstance(a, list):
+                raise AnalysisError("bisect on something that is not a list")
+            lo = 0
+            for i, y in enumerate(a):
+                r = compare(I, ast.Lt() if left else ast.LtE(), y, x)
+                if r is True:
+                    lo = i + 1
+                elif r is False:
+                    break
+                else:
+                    raise AnalysisError("bisect over values whose order is not known")
+            return lo
+        if name.startswith("insort"):
+            return Builtin(dotted, lambda a, x, *r, **k: a.insert(pos(a, x), x))
+        return Builtin(dotted, lambda a, x, *r, **k: sp.Integer(pos(a, x)))
+    if dotted == "bisect":
+        return ModuleVal(dotted, external=dotted)
     if dotted == "collections.deque":
         return Builtin(dotted, lambda it=(), maxlen=None: DequeVal(iterate(I, it)))
     if dotted in ("collections.defaultdict",):
